@@ -55,6 +55,10 @@ claim("C19", "panic-source enumeration over the VTA request-reachable set: SSA i
       "Structural necessary condition: every nameable panic source reachable from ServeHTTP (explicit panic, unchecked assertion, compiler-unproven index/slice, dynamic Must*, nullable timestamp / decoder-filled pointer dereference) is discharged by a guard found on every path or by a reviewed one-construct-one-reason table; scope presence; SameSite agreement. Level 'other': absence of the enumerated panic classes, not of all crashes.",
       TRUST + " Also trusted: the Go compiler's prove pass for eliminated bounds checks. Not decided: third-party library panics, nil-map writes, division, exhaustion.", "DESIGN.md §5 C19")
 
+claim("C15", "value provenance / taint (query-free operand) + path-sensitive predicate structure + sibling agreement (NetSet add/has)",
+      "Structural necessary condition for all requests/rule sets: the string matched by skip-auth regexes is query- and fragment-free on every path; method/path predicates and negate wired exactly; preflight needs flag && OPTIONS; trusted-IP verdict only as NetSet.Has(GetClientIP result); NetSet inserts into the same-mask map it looks up, keyed identically; host-bit CIDRs rejected. Level 'other'.",
+      TRUST + " Not decided: regex engine, CIDR arithmetic over all addresses, net.IP normalisation.", "DESIGN.md §5 C15")
+
 for i in range(2, 21):
     pid = "C%02d" % i
     if pid not in T:
